@@ -182,8 +182,9 @@ impl WebSocketTransport {
         let dial_address = match protocol_stack.next().ok_or(AddressError::InvalidProtocol)? {
             Protocol::Ip4(address) => address.to_string(),
             Protocol::Ip6(address) => format!("[{address}]"),
-            Protocol::Dns(address) | Protocol::Dns4(address) | Protocol::Dns6(address) =>
-                address.to_string(),
+            Protocol::Dns(address) | Protocol::Dns4(address) | Protocol::Dns6(address) => {
+                address.to_string()
+            }
 
             _ => return Err(AddressError::InvalidProtocol),
         };
